@@ -102,18 +102,18 @@ theorem visit_preserves_effect_nodes (cfg : Config) (f : Nat) (root : Bool) (n :
 theorem erase_is_identity_on_source (n : Node) (h : srcOk n = true) (σ : Env) : erase σ n = (n, σ) :=
   erase_src n h σ
 
-/-- **C02 for the operation visitor (partial: trees without optional chaining).**  For every
+/-- **C02 for the operation visitor (partial: no optional chain of the tree is lowered under `cfg`).**  For every
     configuration, fuel, context flag, state and well-formed source tree `n` — statement, expression,
     any nesting of any node kinds — the tree the operation visitor returns erases, in every environment,
     to `n` itself up to source positions: each hook call gives way to its first argument, each
     temporary to the expression assigned to it, `T = hook(T + R, …)` to `T += R`, `t1.call(t0, …)` to
     the method call, the injected arrow body to the expression.  All transforms are covered (`+`, `+=`
     with every target shape, templates, method calls, `X.prototype.m.call|apply` with plain and spread
-    this, bare calls, `apply` argument arrays with holes and spreads, arrows); *partial*: the
-    optional-chain lowering is excluded by `noOpt`, and the block visitor's `let` / nested blocks and
+    this, bare calls, `apply` argument arrays with holes and spreads, arrows, optional chains that are not
+    lowered); *partial*: the optional-chain *lowering* is excluded by `noOpt cfg`, and the block visitor's `let` / nested blocks and
     the file prologue are covered by `dropPrologue_insert` and the oracle, not by this theorem. -/
 theorem operation_visitor_erases_to_input_partial (cfg : Config) (f : Nat) (root : Bool) (n : Node) (s : St)
-    (hs : srcOk n = true) (hno : noOpt n = true) :
+    (hs : srcOk n = true) (hno : noOpt cfg n = true) :
     ∀ σ, ∃ X σ', erase σ (visit cfg f root n s).1 = (X, σ') ∧ strip X = strip n ∧ Node.eqNS X n = true := by
   intro σ
   have h := visit_VRes cfg f root n s hs hno
@@ -127,7 +127,7 @@ theorem operation_visitor_erases_to_input_partial (cfg : Config) (f : Nat) (root
 /-- in a nested (non-root) context the temporaries the erasure binds are exactly those allocated while
     visiting: nothing leaks into the environment of the surrounding expression -/
 theorem operation_visitor_binds_only_its_own_temporaries_partial (cfg : Config) (f : Nat) (n : Node) (s : St)
-    (hs : srcOk n = true) (hno : noOpt n = true) :
+    (hs : srcOk n = true) (hno : noOpt cfg n = true) :
     s.counter ≤ (visit cfg f false n s).2.counter ∧
     ∀ σ, ∃ X Δ, erase σ (visit cfg f false n s).1 = (X, Δ ++ σ) ∧ strip X = strip n ∧
       ∀ p ∈ Δ, s.counter ≤ p.1 ∧ p.1 < (visit cfg f false n s).2.counter := by
@@ -152,17 +152,20 @@ theorem eraseProgram_insertPrologue (dsts : List String) (p1 : Node) :
       exact absurd rfl (hne k sp ns body vs)
     · rfl
 
-/-- **C02 for the whole pipeline (partial: programs without optional chaining).**  For every
+/-- **C02 for the whole pipeline (partial: programs none of whose optional chains is lowered).**  For every
     configuration, every fuel and every well-formed source program `p` (what the parser produces; `srcOk`,
-    decidable, evaluated by the driver on every input) that contains no optional chain, whenever the
+    decidable, evaluated by the driver on every input) in which no optional chain is a call of a configured
+    method off a chain link (`noOpt cfg p`: `a?.b.c`, `a?.b(x)`, `a?.[k]` are fine, `a?.b.trim()` with `trim`
+    configured is not), whenever the
     rewrite reports the file as modified, erasing the instrumentation from the output — the file prologue,
     the injected `let` of every block at every nesting depth, every hook call, temporary, lowered `+=`,
     call through a hoisted function value and wrapped arrow body — gives back `p` itself up to source
     positions.  Operation visitor, block visitor (nested blocks, closures, classes, arrow bodies turned into
     blocks and instrumented in turn) and program visitor are all inside the statement; running out of fuel
-    is covered too (what is not visited is returned as it is).  *Partial*: optional chaining (`noOpt`). -/
+    is covered too (what is not visited is returned as it is).  *Partial*: the optional-chain lowering
+    (`noOpt cfg`). -/
 theorem erasing_the_instrumentation_gives_back_the_input_partial (cfg : Config) (fuel : Nat) (p : Node)
-    (hs : srcOk p = true) (hno : noOpt p = true) (hnb : isBlockNode p = false)
+    (hs : srcOk p = true) (hno : noOpt cfg p = true) (hnb : isBlockNode p = false)
     (hm : (transformProgram cfg fuel p).status = .modified) :
     strip (eraseProgram (prologue cfg.dsts) (transformProgram cfg fuel p).out) = strip p ∧
     Node.eqNS (eraseProgram (prologue cfg.dsts) (transformProgram cfg fuel p).out) p = true := by
@@ -175,7 +178,7 @@ theorem erasing_the_instrumentation_gives_back_the_input_partial (cfg : Config) 
 /-- every block statement the block visitor returns — at any depth, in any state, for any fuel — erases,
     in every environment and without touching it, to the statements of the block it was given -/
 theorem block_visitor_result_erases_to_the_block_partial (cfg : Config) (opFuel f : Nat) (ss : List Node) (sp : Span) (s : St)
-    (hs : srcOk (.block ss sp) = true) (hno : noOpt (.block ss sp) = true)
+    (hs : srcOk (.block ss sp) = true) (hno : noOpt cfg (.block ss sp) = true)
     (hnc : (blockVisit cfg opFuel f (.block ss sp) s).2.status ≠ .cancelled) :
     ∀ σ, ∃ es, erase σ (blockVisit cfg opFuel f (.block ss sp) s).1 = (.block es sp, σ) ∧ stripL es = stripL ss := by
   have hb := blockVisit_BRg cfg opFuel f (.block ss sp) s (blkOk_src _ hs hno) hnc
@@ -186,11 +189,11 @@ theorem block_visitor_result_erases_to_the_block_partial (cfg : Config) (opFuel 
     obtain ⟨es, ee, hsim⟩ := hg σ
     exact ⟨es, ee, hsim.1⟩
 
-/-- the hypotheses are satisfiable: `a + b()` is a well-formed source tree without optional chaining -/
+/-- the hypotheses are satisfiable: `a + b()` is a well-formed source tree with no lowered optional chain -/
 example : srcOk (.bin "+" (.ident (.user "a") ⟨1, 2⟩) (.call (.ident (.user "b") ⟨5, 6⟩) [] ⟨5, 8⟩) ⟨1, 8⟩) = true ∧
-    noOpt (.bin "+" (.ident (.user "a") ⟨1, 2⟩) (.call (.ident (.user "b") ⟨5, 6⟩) [] ⟨5, 8⟩) ⟨1, 8⟩) = true := by
+    ∀ cfg : Config, noOpt cfg (.bin "+" (.ident (.user "a") ⟨1, 2⟩) (.call (.ident (.user "b") ⟨5, 6⟩) [] ⟨5, 8⟩) ⟨1, 8⟩) = true := by
   constructor
   · simp [srcOk_eq, srcNode, srcOkL, Node.kids, callThisClash, Generated.ddGlobalNamespace]
-  · simp [noOpt_eq, noOptK, Node.kids]
+  · intro cfg; simp [noOpt_eq, noOptK, Node.kids]
 
 end IastModel.C02
